@@ -532,7 +532,9 @@ func (nd *Node) build() {
 	nd.App = &App{Name: nd.Name, L: nd.L, writers: map[string]api.ShipConnectionDataWriterInterface{}, node: nd}
 	nd.App.AllowWait.Store(true)
 	nd.Mgr = mdns.NewMDNS(nd.SKI, "brand", "model", "type", "serial-"+nd.Name, nil, nd.ShipID, "svc-"+nd.Name, nd.Port, nil, mdns.MdnsProviderSelectionAll)
+	nd.bus.mu.Lock()
 	nd.prov = &busProvider{bus: nd.bus, node: nd}
+	nd.bus.mu.Unlock()
 	local := api.NewServiceDetails(nd.SKI)
 	local.SetShipID(nd.ShipID)
 	nd.Hub = hub.NewHub(nd.App, &mdnsAdapter{MdnsManager: nd.Mgr, prov: nd.prov}, nd.Port, nd.Cert, local)
